@@ -8,11 +8,13 @@
     driver executes against the Go code) compute that group's operations on *all* valid
     representatives, with no exceptional cases;
   * untrusted decoding returns a representative of a group element, and so is the generator;
-  * the one fact about the group that stays assumed is its order: `module_of_exponent` turns
-    `∀ x, r • x = 0` into the `Fr`-module structure that C01–C05 and C09 quantify over.
+  * the order of the group is a theorem as well (`card_BW`, `bw_exponent`; `C08Order`): the group
+    has exactly `r` elements, so `BW` is an `Fr`-module — the structure that C01–C05 and C09
+    quantify over — with no assumption left about the group.
 -/
 import Mathlib.Algebra.Module.ZMod
 import GoIpa.Props.C08Group
+import GoIpa.Props.C08Order
 import GoIpa.Props.C07Concrete
 namespace GoIpa.C08
 open GoIpa GoIpa.Zp GoIpa.Concrete
@@ -111,13 +113,94 @@ theorem pt_equal_iff {p q : Pt} {g h : Sub bandersnatch} (hp : Rep bandersnatch 
   rw [hp.2, hq.2]
   exact (C07.cross_iff_class bandersnatch C07.a_ns C07.d_ns g.1 h.1 g.2.on h.2.on).symm
 
-/-! ### what is left of the G-assumption -/
+/-! ### the group order: what used to be the G-assumption is a theorem -/
 
-/-- If the group has exponent `r` (a point-counting fact about Bandersnatch that is *not* proved
-here), it is a module over the scalar field — the structure over which C01–C05 and C09 are
-proved. -/
+/-- If the group has exponent `r`, it is a module over the scalar field — the structure over
+which C01–C05 and C09 are proved.  (`bw_exponent` below discharges the hypothesis.) -/
 @[reducible] noncomputable def module_of_exponent (h : ∀ x : BW, R • x = 0) : Module Fr BW :=
   letI : Module (ZMod R) BW := AddCommGroup.zmodModule h
   Module.compHom BW (Zp.equivZMod : Fr ≃+* ZMod R).toRingHom
+
+noncomputable instance : Fintype Fp := Fintype.ofEquiv (ZMod P) (Zp.equivZMod (p := P)).symm.toEquiv
+
+theorem card_Fp : Fintype.card Fp = P := by
+  rw [Fintype.card_congr (Zp.equivZMod (p := P)).toEquiv, ZMod.card]
+
+/-- `−a = 5` is a non-square as well (`−1` is a square) -/
+theorem na_ns : ¬ IsSquare (-bandersnatch.a) := by
+  rintro ⟨s, hs⟩
+  obtain ⟨i, hi⟩ := neg_one_isSquare
+  apply C07.a_ns
+  exact ⟨i * s, by linear_combination (-1 : Fp) * hs + (s * s) * hi⟩
+
+theorem two_ne_zero_Fp : (2 : Fp) ≠ 0 := by decide +kernel
+
+/-- the generator as a group element -/
+def genSub : Sub bandersnatch := ⟨generatorAff, generator_inSub⟩
+noncomputable def genBW : BW := Banderwagon.mk bandersnatch genSub
+
+theorem genBW_ne_zero : genBW ≠ 0 := by
+  intro h
+  have h' : Banderwagon.mk bandersnatch genSub = Banderwagon.mk bandersnatch 0 := h
+  rw [Banderwagon.mk_eq_iff] at h'
+  have hx : generatorAff.x = 0 := by
+    have : generatorAff.x * 1 = generatorAff.y * 0 := h'
+    simpa using this
+  exact absurd hx (by decide +kernel)
+
+/-- **`r · G = O`, computed in the kernel** with the model's own double-and-add over `Fp`
+(253 doublings; the same function the driver executes against the Go code). -/
+theorem r_smul_generator_coords : (R • Pt.generator : Pt).X = 0 ∧ (R • Pt.generator : Pt).Z ≠ 0 := by
+  decide +kernel
+
+/-- a representative with `X = 0` represents the neutral element of the quotient -/
+theorem mk_zero_of_X (q : Pt) (g : Sub bandersnatch) (hrep : Rep bandersnatch q g) (hX : q.X = 0) :
+    Banderwagon.mk bandersnatch g = 0 := by
+  have hx : g.1.x = 0 := by
+    rw [← hrep.2]
+    show q.X * _ = 0
+    rw [hX, zero_mul]
+  have : Banderwagon.mk bandersnatch g = Banderwagon.mk bandersnatch 0 := by
+    rw [Banderwagon.mk_eq_iff, hx, Sub.zero_val]
+    simp only [Aff.zero, zero_mul, mul_zero]
+  exact this
+
+theorem mk_nsmul (n : ℕ) (g : Sub bandersnatch) :
+    Banderwagon.mk bandersnatch (n • g) = n • Banderwagon.mk bandersnatch g :=
+  map_nsmul (QuotientAddGroup.mk' (Sub.T2 bandersnatch)) n g
+
+theorem r_nsmul_genBW : R • genBW = 0 := by
+  unfold genBW
+  rw [← mk_nsmul]
+  exact mk_zero_of_X _ _ (pt_nsmul_rep generator_rep R) r_smul_generator_coords.1
+
+theorem size_bound : Fintype.card Fp + 1 < 6 * R := by
+  rw [card_Fp]; decide
+
+/-- **The Banderwagon group has exactly `r` elements** (no point counting: Lagrange with the
+generator, the bound `2·|BW| ≤ p + 1 < 6r`, and the absence of 2-torsion in the quotient). -/
+theorem card_BW : Nat.card BW = R :=
+  card_of_generator bandersnatch two_ne_zero_Fp na_ns R Primes.R_prime size_bound genBW genBW_ne_zero r_nsmul_genBW
+
+/-- **Every Banderwagon element is killed by `r`.** -/
+theorem bw_exponent : ∀ x : BW, R • x = 0 :=
+  exponent_of_generator bandersnatch two_ne_zero_Fp na_ns R Primes.R_prime size_bound genBW genBW_ne_zero r_nsmul_genBW
+
+/-- **The Banderwagon group of the implementation is a vector space over the scalar field `Fr`**:
+the structure C01–C05 and C09 quantify over, now an instance and not an assumption. -/
+noncomputable instance : Module Fr BW := module_of_exponent bw_exponent
+
+/-- every decoded point has order dividing `r` (C06's "order divides r") -/
+theorem decode_order (b : Bytes) (p : Pt) (h : decodeCompressed Fp.sqrtPrecomp b false = .ok p) :
+    ∃ g : Sub bandersnatch, Rep bandersnatch p g ∧ R • Banderwagon.mk bandersnatch g = 0 := by
+  obtain ⟨g, hg⟩ := decode_rep b p h
+  exact ⟨g, hg, bw_exponent _⟩
+
+/-- the scalar action of `Fr` on `BW` is the natural-number multiple by the canonical representative -/
+theorem smul_def (s : Fr) (x : BW) : s • x = s.val • x := by
+  let _ : Module (ZMod R) BW := AddCommGroup.zmodModule bw_exponent
+  show (Zp.toZ s : ZMod R) • x = s.val • x
+  unfold Zp.toZ
+  exact Nat.cast_smul_eq_nsmul (ZMod R) s.val x
 
 end GoIpa.C08
